@@ -1186,7 +1186,7 @@ where
 		let w = w_lock.lc_provider()?.wallet_inst()?;
 		// Test keychain mask, to keep API consistent
 		let _ = w.keychain(keychain_mask)?;
-		owner::get_stored_tx(&**w, tx_id, slate_id)
+		owner::get_stored_tx(&mut **w, tx_id, slate_id)
 	}
 
 	/// Return the rewind hash of the wallet.
